@@ -99,6 +99,12 @@ class EchoDatagram(AsyncDatagramRequestHandler):
         await client.send_packet(request)
 
 
+def socket_fileno(sock: Any) -> int:
+    import socket as _s
+
+    return _s.socket.fileno(sock)
+
+
 def make_backend(world: World, listeners: list, nlisten: int = 1) -> AsyncIOBackend:
     """The real AsyncIOBackend, except that listeners are built on FakeSockets (same shape as the real methods: one await
     for the address resolution, sockets opened synchronously, UDP endpoints created one after the other)."""
@@ -119,21 +125,35 @@ def make_backend(world: World, listeners: list, nlisten: int = 1) -> AsyncIOBack
             return [ListenerSocketAdapter(self, sock, factory) for sock in socks]
 
         async def create_udp_listeners(self, host: Any, port: int, *, reuse_port: bool = False) -> Any:
-            await asyncio.sleep(0)
+            # the REAL AsyncIOBackend.create_udp_listeners runs (address resolution of a numeric host, then one
+            # loop.create_datagram_endpoint per socket); only the function that opens and binds the sockets is replaced
+            # (module attribute, harness process only) so that it hands out FakeSockets
+            from easynetwork.lowlevel import _utils as _lib_utils
+
             loop = asyncio.get_running_loop()
-            socks = []
-            for _ in range(nlisten):
-                sock = world.dgram_socket(peer=None, local=("127.0.0.1", 50000 + len(listeners)))
-                sock.tag = f"listener{len(listeners)}"
-                sock.wrapped = False
-                listeners.append(sock)
-                socks.append(sock)
-            # same shape as the real method: all sockets are opened first, then wrapped one after the other
-            made = []
-            for sock in socks:
-                made.append(await loop.create_datagram_endpoint(lambda: DatagramListenerProtocol(loop=loop), sock=sock))
-                sock.wrapped = True
-            return [DatagramListenerSocketAdapter(self, transport, protocol) for transport, protocol in made]
+            socks: list = []
+
+            def fake_open(infos: Any, **kw: Any) -> list:
+                for _ in range(nlisten):
+                    sock = world.dgram_socket(peer=None, local=("127.0.0.1", 50000 + len(listeners)))
+                    sock.tag = f"listener{len(listeners)}"
+                    sock.wrapped = False
+                    listeners.append(sock)
+                    socks.append(sock)
+                return list(socks)
+
+            saved = _lib_utils.open_listener_sockets_from_getaddrinfo_result
+            _lib_utils.open_listener_sockets_from_getaddrinfo_result = fake_open  # type: ignore[assignment]
+            try:
+                return await AsyncIOBackend.create_udp_listeners(self, host, port, reuse_port=reuse_port)
+            finally:
+                _lib_utils.open_listener_sockets_from_getaddrinfo_result = saved  # type: ignore[assignment]
+                wrapped_fds = set(getattr(loop, "_transports", {}).keys())
+                for sock in socks:
+                    try:
+                        sock.wrapped = sock.closed_flag or socket_fileno(sock) in wrapped_fds
+                    except Exception:
+                        sock.wrapped = True
 
     return Backend()
 
